@@ -2,4 +2,5 @@
 //! C13 (bus), C14 (buffered).  A library so that the cargo-fuzz targets link the very same
 //! interpreter + oracle as the proptest / enumeration binary.
 pub mod c06;
+pub mod c10;
 pub mod rb;
